@@ -290,6 +290,13 @@ UNITS = [
       props={'memsafe': ['C13'], 'ub': ['C13']},
       assumes=['plain symbolic execution of the real Parameter::write, then of the real Parameter::read + c3d::readParam on the bytes '
                'written; read helpers = value stubs (their proved contracts)']),
+    U('B_readParam_string', 'contracts/bounded_matrix_read.c', 'h_B_readParam_string', [], ['C02', 'C11', 'C16', 'C13'], mode='bmc',
+      stubs={'c3d__readString': 'stubv_readString'}, defines=['VF_MATRIX_STRING', 'VF_ND=2', 'VF_SW=2', 'VF_SR=2', 'VF_IMG=4'], unwind=5,
+      unwindset={'vf_vec_string_push_back.0': 8, 'vf_string_ctor_lit.0': 3, 'h_B_readParam_string.0': 8}, timeout=1200, level='B', object_bits=12,
+      bound='2 rows of 2 characters (symbolic content), image truncated anywhere in 0..4 bytes, no NUL bytes',
+      props={'memsafe': ['C13', 'C16'], 'ub': ['C13']},
+      assumes=['plain symbolic execution of the real c3d::readParam (string form), _readMatrix, _dispatchMatrix, removeTrailingSpaces; '
+               'readString = value stub (proved contract)']),
     U('Parameters_write', WR, 'h_Parameters_write', ['Parameters__write/contract_Parameters__write'],
       ['C01', 'C03', 'C13', 'C14', 'C10'], replace=['Group__write/contract_abs_Group__write'], unwind=5, loops=True, timeout=900,
       pre_unwind={'vf_stream_write.0': 5, 'Parameters__write.0': 3},
